@@ -691,6 +691,35 @@ def opNormalize (j : Json) : Except String Json := do
 
 end FsDrv
 
+/-! #### C11 value semantics -/
+
+def getItems (j : Json) (k : String) : Except String (Values.Items Bytes) := do
+  (← getArr j k).toList.mapM (fun kv => do
+    let a ← kv.getArr?
+    let ks ← a[0]!.getStr?
+    let vs ← a[1]!.getStr?
+    pure (← unhexStr ks, ← unhexStr vs))
+
+def opValues (j : Json) : Except String Json := do
+  let f ← getS j "f"
+  match f with
+  | "map_canon" =>
+      -- the sequence a frozen mapping's hash is computed from
+      let a ← getItems j "items"
+      pure <| Json.mkObj [("sorted", jPairs (sortByKey (fun kv => kv.1) a))]
+  | "eq_fields" =>
+      let cls ← getS j "cls"
+      pure <| Json.mkObj [("fields", Json.arr ((Values.eqFields cls).map Json.str).toArray)]
+  | "alias_run" =>
+      let items ← getItems j "items"
+      let mode := if (← getS j "mode") == "copy" then Values.Mode.copy else Values.Mode.alias
+      let newItems ← getItems j "new_items"
+      let s0 : Values.Store Bytes := ⟨fun l => if l = 0 then items else [], 1⟩
+      let (s1, obj) := Values.construct mode s0 0
+      let s2 := Values.mutateAll s1 [(0, fun _ => newItems)]
+      pure <| Json.mkObj [("observed", jPairs (Values.observe s2 obj))]
+  | _ => throw s!"bad values op {f}"
+
 def opSha1 (j : Json) : Except String Json := do
   let b ← getB j "data"
   pure <| Json.mkObj [("sha1", jB (Sha1.sha1 b))]
@@ -731,6 +760,7 @@ def dispatch (op : String) (j : Json) : Except String Json :=
   | "cli_identify" => CliDrv.opIdentify j
   | "fs_read" => FsDrv.opRead j
   | "fs_normalize" => FsDrv.opNormalize j
+  | "values" => opValues j
   | _ => throw s!"unknown op {op}"
 
 def handleLine (line : String) : String :=
